@@ -679,6 +679,9 @@ class AsyncFIXConnection:
 
         Args:
             seqreset_msg: SequenceReset(35=4) FIXMessage
+
+        Returns:
+            False - message has to be ignored (GapFill not at expected MsgSeqNum)
         """
         assert seqreset_msg.msg_type == FMsg.SEQUENCERESET
 
@@ -687,6 +690,16 @@ class AsyncFIXConnection:
                 self.log.warning(
                     "Getting SEQUENCERESET(GapFillFlag=Y) while not filling gaps"
                 )
+            msg_seq_num = int(seqreset_msg[FTag.MsgSeqNum])
+            if msg_seq_num > self._session.next_num_in:
+                # Messages before this gap fill are missing, it is not applied:
+                #  the regular gap check requests a resend
+                return True
+            if msg_seq_num < self._session.next_num_in or (
+                int(seqreset_msg[FTag.NewSeqNo]) <= msg_seq_num
+            ):
+                self.log.warning(f"Ignoring SEQUENCERESET(GapFillFlag=Y) {seqreset_msg}")
+                return False
         else:
             self.log.info(f"SequenceReset received from peer: {seqreset_msg}")
 
@@ -700,6 +713,7 @@ class AsyncFIXConnection:
         self._journaler.set_seq_num(
             self._session, next_num_in=int(seqreset_msg[FTag.NewSeqNo])
         )
+        return True
 
     async def _finalize_message(self, msg: FIXMessage, raw_msg: bytes):
         """Final message processing (MsgSeqNum checks / journaling).
@@ -805,7 +819,8 @@ class AsyncFIXConnection:
             if msg.msg_type == FMsg.LOGON:
                 await self._process_logon(msg)
             elif msg.msg_type == FMsg.SEQUENCERESET:
-                await self._process_seqreset(msg)
+                if not await self._process_seqreset(msg):
+                    return
             elif msg.msg_type == FMsg.LOGOUT:
                 await self._process_logout(msg)
 
